@@ -34,6 +34,18 @@ theorem remove_err (s : Store) (v : View) (p : Bytes) (e : Err)
 theorem rename_err (s : Store) (v : View) (o n : Bytes) (e : Err)
     (h : (rename s v o n).2 = .err e) : (rename s v o n).1 = s := by
   revert h; unfold rename; simp only []
+  generalize searchNode s v o .lstat = ro
+  generalize searchNode s v n .lstat = rn
+  -- the first exits by hand: `split` on the whole body exceeds the step limit of its `simp`
+  by_cases h1 : (ro.err != SErr.exists) = true
+  · rw [if_pos h1]; intro _; rfl
+  rw [if_neg h1]
+  by_cases h2 : (rn.err != SErr.exists && rn.err != SErr.noent) = true
+  · rw [if_pos h2]; intro _; rfl
+  rw [if_neg h2]
+  by_cases h3 : (rn.err == SErr.noent && !rn.pi.isLast) = true
+  · rw [if_pos h3]; intro _; rfl
+  rw [if_neg h3]
   repeat' split
   all_goals simp_all
 
